@@ -477,6 +477,21 @@ def stepC17 (ts : List String) : String :=
     | _, _, _, _ => "bad-op"
   | _ => "bad-op"
 
+/-- `C12 conv|corr N n1 a… b…` / `C12 lens N nsamples` -/
+def stepC12 (ts : List String) : String :=
+  match ts with
+  | op :: N :: n1 :: rest =>
+    match N.toNat?, n1.toNat?, intList? rest with
+    | some N, some n1, some xs =>
+      let a := xs.take n1
+      let b := xs.drop n1
+      if op == "conv" then s!"ok {showInts (Conv.fftconvolve N a b)} | {showInts (Conv.lconv a b)}"
+      else if op == "corr" then s!"ok {showInts (Conv.correlate N a b)}"
+      else if op == "lens" then s!"ok {Conv.rfftBins N} {Conv.irfftDefaultLen (Conv.rfftBins N)} {Conv.ifftLen (Conv.rfftBins N) n1}"
+      else "bad-op"
+    | _, _, _ => "bad-op"
+  | _ => "bad-op"
+
 def step (line : String) : String :=
   match (line.trimAscii.toString.splitOn " ").filter (· ≠ "") with
   | "C03" :: rest => stepC03 rest
@@ -489,6 +504,7 @@ def step (line : String) : String :=
   | "C09" :: rest => stepC09 rest
   | "C11" :: rest => stepC11 rest
   | "C17" :: rest => stepC17 rest
+  | "C12" :: rest => stepC12 rest
   | "C04" :: rest => stepC04 rest
   | "C10" :: rest => stepC10 rest
   | _ => "bad-op"
